@@ -56,7 +56,7 @@ impl FieldAttributeBuilder {
 
                 flag = true;
             },
-            Meta::NameValue(name_value) => {
+            Meta::NameValue(_) => {
                 if !self.enable_expression {
                     return Err(panic::attribute_incorrect_format(
                         meta.path().get_ident().unwrap(),
@@ -64,7 +64,7 @@ impl FieldAttributeBuilder {
                     ));
                 }
 
-                expression = Some(auto_adjust_expr(name_value.value.clone(), Some(ty)));
+                expression = Some(auto_adjust_expr(meta_2_expr(meta)?, Some(ty)));
             },
             Meta::List(list) => {
                 let result =
